@@ -16,8 +16,10 @@ Theorem C15_models_total : forall text, sqlite_effects text <> None /\ guard tex
 Proof. exact models_total. Qed.
 Print Assumptions C15_models_total.
 
-(* A request with such a statement anywhere in it is refused at Execute, Query and Request. *)
-Theorem C15_applied_everywhere : forall (e : entry) stmts st effs,
-  In st stmts -> sqlite_effects st = Some effs -> effs <> [] -> store_refuses e stmts = Some true.
-Proof. exact applied_everywhere. Qed.
+(* A request with such a statement anywhere in it is refused at Execute, Query and Request,
+   whatever flags (SqlExplain, ForceQuery) the statements carry. *)
+Theorem C15_applied_everywhere : forall (e : entry) (stmts : list statement) sql explain force_query effs,
+  In {| st_sql := sql; st_explain := explain; st_force_query := force_query |} stmts ->
+  sqlite_effects sql = Some effs -> effs <> [] -> store_refuses e stmts = Some true.
+Proof. exact applied_everywhere_flags. Qed.
 Print Assumptions C15_applied_everywhere.
